@@ -42,7 +42,7 @@ var (
 	rxTempNewline      = regexp.MustCompile(`\s*\|\\/\|\s*`)
 	rxDisplay          = regexp.MustCompile(`(?i)(?:^|[\s;])display\s*:\s*([\w-]+)\s*(?:!\s*important\s*)?(?:;|$)`)
 	rxVisibilityHidden = regexp.MustCompile(`(?i)(?:^|[\s;])visibility\s*:\s*(:?hidden|collapse)`)
-	rxSrcsetURL        = regexp.MustCompile(`(?i)(\S+)((?:\s+[\d.]+[xwh])*)(\s*(?:,|$))`)
+	rxSrcsetURL        = regexp.MustCompile(`(?i)(\S+)((?:\s+[\d.]+(?:e[+-]?\d+)?[xwh])*)(\s*(?:,|$))`)
 
 	elementWithSizeAttr = map[string]struct{}{
 		"table": {},
